@@ -191,6 +191,11 @@ func (c *FuncCtx) evalIdent(st *State, id *ast.Ident) *Val {
 		obj = o
 	} else {
 		obj = c.lookupSpecName(st, id.Name)
+		if obj == nil && c.renames != nil {
+			if nn, ok := c.renames[id.Name]; ok {
+				obj = c.lookupSpecName(st, nn)
+			}
+		}
 	}
 	if obj == nil {
 		limitf("unresolved identifier %q", id.Name)
